@@ -326,9 +326,9 @@ class MidiFile:
         if self.type == 2:
             raise TypeError("can't merge tracks in type 2 (asynchronous) file")
 
-        if self._merged_track is None:
-            self._merged_track = merge_tracks(self.tracks, skip_checks=True)
-        return self._merged_track
+        # This is computed on every access: a cached copy would go stale
+        # whenever tracks or messages are edited.
+        return merge_tracks(self.tracks, skip_checks=True)
 
     @merged_track.deleter
     def merged_track(self):
